@@ -7,10 +7,12 @@ import (
 )
 
 type rawPathVariable struct {
-	schema          *jschema.JSchema
-	parameters      []PathParameter
-	pathDirective   directive.Directive // to detect and display an error
-	parentDirective directive.Directive
+	schema        *jschema.JSchema
+	parameters    []PathParameter
+	pathDirective directive.Directive // to detect and display an error
+	// parent is the directive the Path directive belongs to. It is compared by identity: the copies PASTE makes of one
+	// macro directive are different parents although they were scanned from the same place.
+	parent *directive.Directive
 
 	// temp workaround. true means that this was not gathered from Path directive,
 	// but from URL or Method-directive, imitating real rawPathVariable
